@@ -5,7 +5,7 @@
    replaces it, completion needs the outer and the latest inner to have
    completed, the first error of the outer or of the latest inner ends it. *)
 From RxVerif Require Import Base.Prelude Ops.Machine Ops.Multi Ops.MultiFacts Ops.RunLemmas
-  Ops.Combinators Ops.MergeFacts.
+  Ops.Combinators Ops.MergeFacts Ops.SwitchSpecFacts.
 
 Theorem C12_switch_refines_spec : forall A (mapper : A -> nat -> res unit) (ins : list (Z * inp A)),
   temitted (fst (run (x_switch_map mapper) ins)) = switch_spec mapper true 0 false 1 ins.
@@ -22,6 +22,34 @@ Proof.
     intros k Hk; intuition.
 Qed.
 Print Assumptions C12_at_most_one_inner_subscribed.
+
+(* consequences of the specification (hence, by the refinement, of the operator on EVERY input
+   sequence).  [sw_after] is the specification's state after a prefix of the inputs: (outer live,
+   id of the latest inner = number of inners received so far, latest inner still running). *)
+
+(* an element is forwarded ONLY while its inner sequence is the most recently received one *)
+Theorem C12_forwards_only_latest : forall A (mapper : A -> nat -> res unit) (ins : list (Z * inp A))
+  ol latest has pos p x,
+  In (p, Next x) (switch_spec mapper ol latest has pos ins) ->
+  (pos <= p)%nat /\
+  exists ol' latest' now,
+    sw_after mapper ol latest has (firstn (p - pos) ins) = Some (ol', latest', true)
+    /\ nth_error ins (p - pos) = Some (now, ISrc latest' (Next x))
+    /\ (1 <= latest')%nat.
+Proof. exact @switch_forwards_only_latest. Qed.
+Print Assumptions C12_forwards_only_latest.
+
+(* completion only once the outer has completed and the latest inner has completed *)
+Theorem C12_completes_only_when_both_done : forall A (mapper : A -> nat -> res unit) (ins : list (Z * inp A))
+  ol latest has pos p,
+  In (p, Done) (switch_spec mapper ol latest has pos ins) ->
+  (pos <= p)%nat /\
+  exists ol' latest' has' now,
+    sw_after mapper ol latest has (firstn (p - pos) ins) = Some (ol', latest', has')
+    /\ ((ol' = false /\ has' = true /\ nth_error ins (p - pos) = Some (now, ISrc latest' Done) /\ (1 <= latest')%nat)
+        \/ (ol' = true /\ has' = false /\ nth_error ins (p - pos) = Some (now, ISrc 0%nat Done))).
+Proof. exact @switch_completes_only_when_both_done. Qed.
+Print Assumptions C12_completes_only_when_both_done.
 
 Example C12_witness :
   temitted (fst (run (x_switch_map (fun _ _ => Ok tt))
